@@ -66,7 +66,11 @@ func init() {
 		fs := pflag.NewFlagSet("verif", pflag.ContinueOnError)
 		fs.AddFlagSet(b.Flags)
 		fs.DurationP("max-duration", "d", time.Second, "")
-		args := []string{"--start-rate", a[0] + "/" + a[2] + "ns", "--end-rate", a[1] + "/" + a[2] + "ns",
+		eunit := a[2] // optional 7th argument: the end rate's own unit
+		if len(a) > 6 {
+			eunit = a[6]
+		}
+		args := []string{"--start-rate", a[0] + "/" + a[2] + "ns", "--end-rate", a[1] + "/" + eunit + "ns",
 			"--ramp-duration", a[3] + "ns", "--max-duration", a[4] + "ns", "--distribution", "none"}
 		if err := fs.Parse(args); err != nil {
 			return "err"
